@@ -64,6 +64,7 @@ Fixpoint answers_ok (qs : list request) (ans : list answer) : Prop :=
   | QInt lo hi :: qr, AInt v :: ar => lo <= v < hi /\ answers_ok qr ar
   | QReal _ _ :: qr, AReal _ :: ar => answers_ok qr ar
   | QBool _ :: qr, ABool _ :: ar => answers_ok qr ar
+  | QDisc _ :: qr, ADisc _ :: ar => answers_ok qr ar
   | QSkip :: qr, ASkipped :: ar => answers_ok qr ar
   | _, _ => False
   end.
@@ -76,7 +77,7 @@ Qed.
 Lemma answers_in_range : forall fuel qs st, wf st -> answers_ok qs (answers fuel qs st).
 Proof.
   intros fuel qs. induction qs as [|q qs IH]; intros st Hw; [exact I|].
-  destruct q as [lo hi|lo hi|p|]; cbn [answers].
+  destruct q as [lo hi|lo hi|p|ws|]; cbn [answers].
   - destruct (between_int fuel lo hi st) as [[v st']|] eqn:E; [|exact I].
     apply between_int_range in E; [|exact Hw]. destruct E as [E Hw'].
     cbn [answers_ok]. destruct (answers fuel qs st') eqn:Ea.
@@ -90,5 +91,9 @@ Proof.
       cbn [answers_ok]. apply IH; exact Hw'.
   - unfold boolean. pose proof (canonical_wf st Hw) as Hw'. destruct (canonical st) as [u st']. cbn [snd] in Hw'.
     cbn [answers_ok]. apply IH; exact Hw'.
+  - unfold discrete. destruct (discrete_cp ws) as [|c0 cp].
+    + cbn [answers_ok]. apply IH; exact Hw.
+    + pose proof (canonical_wf st Hw) as Hw'. destruct (canonical st) as [u st']. cbn [snd] in Hw'.
+      cbn [answers_ok]. apply IH; exact Hw'.
   - cbn [answers_ok]. apply IH. apply next_wf; exact Hw.
 Qed.
